@@ -81,6 +81,17 @@ def run(cx):
     _run3(cx)
     # mod_n_from_hash belongs to C16 (hash-to-range); everything else in the crate is field/scalar arithmetic
     S.carry_chain(cx, 'A-CARRY', ('gm_sm9::',), 10, exclude=('mod_n_from_hash',))
+    from .. import rules_a as A
+    A.a_grade(cx, 'A-GRADE', 30)
     fn = cx.fn('gm_sm9::fields::mod_n_mul', 'I-BARRETT')
     if fn is not None:
         S.barrett(cx, 'I-BARRETT', fn, cx.F)
+
+
+_run_curve = run
+
+
+def run(cx):
+    from .. import rules_a as A
+    _run_curve(cx)
+    A.a_curve(cx, 'A-CURVE', 'sm9', 10)
